@@ -1,5 +1,6 @@
 """C05 — serialise / parse round trip."""
 import collections
+import enum
 import collections.abc
 import typing as t
 
@@ -38,6 +39,8 @@ def interchange_problem(d, allow_array, depth=0):
     """None if d is pure interchange data, else a description of the offending part."""
     if depth > 30:
         return 'too deep'
+    if isinstance(d, enum.Enum):
+        return f"enum member {d!r} (an instance of {type(d).__mro__[1].__name__} through its mix-in, but not an interchange scalar)"
     if isinstance(d, _SCALARS):
         return None
     if isinstance(d, collections.abc.Mapping):
